@@ -7,6 +7,8 @@ import (
 	"io"
 	"net/http"
 	"strconv"
+	"strings"
+	"time"
 
 	sse "github.com/tmaxmax/go-sse"
 )
@@ -99,6 +101,66 @@ func (rt *oneShotRT) RoundTrip(req *http.Request) (*http.Response, error) {
 		StatusCode: 200, Status: "200 OK", Proto: "HTTP/1.1", ProtoMajor: 1, ProtoMinor: 1,
 		Header:  http.Header{"Content-Type": []string{"text/event-stream"}},
 		Body:    bodyCloser{rt.body, rt},
+		Request: req,
+	}, nil
+}
+
+// runConnWarm is runConn on a connection's SECOND attempt: the first attempt gets a stream of one
+// small event that ends cleanly, the reconnection gets r; a third attempt is refused by cancelling
+// the request. The buffer configuration must hold for every attempt, not only the first.
+func runConnWarm(r io.Reader, buf []byte, maxSize int) (obs streamObs) {
+	defer func() {
+		if p := recover(); p != nil {
+			obs.panicked = p
+		}
+	}()
+	ctx, cancel := context.WithCancel(context.Background())
+	defer cancel()
+	rt := &seqRT{bodies: []io.Reader{strings.NewReader("data: warm-up\n\n"), r}, cancel: cancel}
+	var attemptErrs []error
+	client := sse.Client{
+		HTTPClient: &http.Client{Transport: rt},
+		Backoff:    sse.Backoff{InitialInterval: time.Nanosecond, Jitter: -1, Multiplier: 1},
+		OnRetry:    func(err error, _ time.Duration) { attemptErrs = append(attemptErrs, err) },
+	}
+	req, _ := http.NewRequestWithContext(ctx, http.MethodGet, "http://sim.invalid/", nil)
+	conn := client.NewConnection(req)
+	if buf != nil || maxSize > 0 {
+		conn.Buffer(buf, maxSize)
+	}
+	conn.SubscribeToAll(func(e sse.Event) {
+		obs.events = append(obs.events, RefEvent{ID: e.LastEventID, Type: e.Type, Data: e.Data})
+	})
+	_ = conn.Connect()
+	if len(obs.events) == 0 || obs.events[0].Data != "warm-up" {
+		obs.panicked = fmt.Sprintf("harness: the warm-up attempt did not deliver its event (got %v)", obs.events)
+		return obs
+	}
+	obs.events = obs.events[1:]
+	if len(attemptErrs) >= 2 {
+		obs.err = attemptErrs[1] // how the second attempt ended
+	}
+	return obs
+}
+
+// seqRT serves its bodies one per attempt and cancels the request when they are used up.
+type seqRT struct {
+	bodies []io.Reader
+	n      int
+	cancel context.CancelFunc
+}
+
+func (rt *seqRT) RoundTrip(req *http.Request) (*http.Response, error) {
+	if rt.n >= len(rt.bodies) {
+		rt.cancel()
+		return nil, context.Canceled
+	}
+	body := rt.bodies[rt.n]
+	rt.n++
+	return &http.Response{
+		StatusCode: 200, Status: "200 OK", Proto: "HTTP/1.1", ProtoMajor: 1, ProtoMinor: 1,
+		Header:  http.Header{"Content-Type": []string{"text/event-stream"}},
+		Body:    io.NopCloser(body),
 		Request: req,
 	}, nil
 }
